@@ -520,7 +520,7 @@ impl OptVec {
             o.with_snippet = false;
         }
         if rng.chance(1, 4) {
-            o.crop_radius = *rng.pick(&[0, 1, 5, 10_000]);
+            o.crop_radius = *rng.pick(&[0, 1, 5, 10_000, usize::MAX, usize::MAX - 1, usize::MAX / 2 + 1]);
         }
         if rng.chance(1, 10) {
             o.budget = None;
